@@ -17,7 +17,9 @@ WQ = ["quantized_bits(4,0,1)", "quantized_bits(6,2,1,alpha='auto_po2')", "quanti
       "quantized_linear(6,1,1)", "quantized_linear(4,0,1,alpha='auto')", "stochastic_ternary()", "stochastic_binary()", None,
       # exponent bounds of the power-of-two scale: min != max, one of them absent
       "binary(alpha='auto_po2',max_po2_exponent=-3)", "binary(alpha='auto_po2',min_po2_exponent=-4,max_po2_exponent=-2)",
-      "quantized_bits(4,0,1,alpha='auto_po2',min_po2_exponent=-3,max_po2_exponent=-1)", "binary(alpha='auto_po2',min_po2_exponent=1)"]
+      "quantized_bits(4,0,1,alpha='auto_po2',min_po2_exponent=-3,max_po2_exponent=-1)", "binary(alpha='auto_po2',min_po2_exponent=1)",
+      # a bound of exactly 0 (a falsy value): active for ordinary weights, whose scale would be below 2^0
+      "quantized_bits(4,0,1,alpha='auto_po2',min_po2_exponent=0)", "binary(alpha='auto_po2',min_po2_exponent=0,max_po2_exponent=0)"]
 AQ = ["quantized_relu(4,2)", "quantized_relu(6,2,negative_slope=0.25)", "quantized_tanh(4)", "quantized_sigmoid(5)", "quantized_bits(8,3,1)",
       "quantized_relu_po2(4)", "quantized_ulaw(6,1)", "quantized_hswish(8,2,1)", "quantized_linear(8,2,1)", "binary()", "ternary()", None, "relu"]
 
